@@ -227,6 +227,7 @@ func (f *FibStrategyHashTable) pruneTables(entry *baseFibStrategyEntry) {
 // FindNextHops returns the longest-prefix matching nexthop(s) matching the specified name.
 
 func (f *FibStrategyHashTable) FindNextHopsEnc(name enc.Name) []*FibNextHopEntry {
+	verifBeforeRLock(&f.fibStrategyRWMutex, "fib.rlock")
 	f.fibStrategyRWMutex.RLock()
 	defer f.fibStrategyRWMutex.RUnlock()
 
@@ -252,6 +253,7 @@ func (f *FibStrategyHashTable) FindNextHopsEnc(name enc.Name) []*FibNextHopEntry
 // FindStrategy returns the longest-prefix matching strategy choice entry for the specified name.
 
 func (f *FibStrategyHashTable) FindStrategyEnc(name enc.Name) enc.Name {
+	verifBeforeRLock(&f.fibStrategyRWMutex, "fib.rlock")
 	f.fibStrategyRWMutex.RLock()
 	defer f.fibStrategyRWMutex.RUnlock()
 
@@ -276,6 +278,7 @@ func (f *FibStrategyHashTable) FindStrategyEnc(name enc.Name) enc.Name {
 
 // InsertNextHop adds or updates a nexthop entry for the specified prefix.
 func (f *FibStrategyHashTable) InsertNextHopEnc(name enc.Name, nexthop uint64, cost uint64) {
+	verifBeforeWLock(&f.fibStrategyRWMutex, "fib.lock")
 	f.fibStrategyRWMutex.Lock()
 	defer f.fibStrategyRWMutex.Unlock()
 
@@ -299,6 +302,7 @@ func (f *FibStrategyHashTable) InsertNextHopEnc(name enc.Name, nexthop uint64, c
 
 // ClearNextHops clears all nexthops for the specified prefix.
 func (f *FibStrategyHashTable) ClearNextHopsEnc(name enc.Name) {
+	verifBeforeWLock(&f.fibStrategyRWMutex, "fib.lock")
 	f.fibStrategyRWMutex.Lock()
 	defer f.fibStrategyRWMutex.Unlock()
 
@@ -312,6 +316,7 @@ func (f *FibStrategyHashTable) ClearNextHopsEnc(name enc.Name) {
 // RemoveNextHop removes the specified nexthop entry from the specified prefix
 
 func (f *FibStrategyHashTable) RemoveNextHopEnc(name enc.Name, nexthop uint64) {
+	verifBeforeWLock(&f.fibStrategyRWMutex, "fib.lock")
 	f.fibStrategyRWMutex.Lock()
 	defer f.fibStrategyRWMutex.Unlock()
 
@@ -337,6 +342,7 @@ func (f *FibStrategyHashTable) RemoveNextHopEnc(name enc.Name, nexthop uint64) {
 
 // GetAllFIBEntries returns all nexthop entries in the FIB.
 func (f *FibStrategyHashTable) GetAllFIBEntries() []FibStrategyEntry {
+	verifBeforeRLock(&f.fibStrategyRWMutex, "fib.rlock")
 	f.fibStrategyRWMutex.RLock()
 	defer f.fibStrategyRWMutex.RUnlock()
 	entries := make([]FibStrategyEntry, 0)
@@ -352,6 +358,7 @@ func (f *FibStrategyHashTable) GetAllFIBEntries() []FibStrategyEntry {
 // SetStrategy sets the strategy for the specified prefix.
 
 func (f *FibStrategyHashTable) SetStrategyEnc(name enc.Name, strategy enc.Name) {
+	verifBeforeWLock(&f.fibStrategyRWMutex, "fib.lock")
 	f.fibStrategyRWMutex.Lock()
 	defer f.fibStrategyRWMutex.Unlock()
 
@@ -361,6 +368,7 @@ func (f *FibStrategyHashTable) SetStrategyEnc(name enc.Name, strategy enc.Name) 
 
 // UnsetStrategy unsets the strategy for the specified prefix.
 func (f *FibStrategyHashTable) UnSetStrategyEnc(name enc.Name) {
+	verifBeforeWLock(&f.fibStrategyRWMutex, "fib.lock")
 	f.fibStrategyRWMutex.Lock()
 	defer f.fibStrategyRWMutex.Unlock()
 
@@ -373,6 +381,7 @@ func (f *FibStrategyHashTable) UnSetStrategyEnc(name enc.Name) {
 
 // GetAllForwardingStrategies returns all strategy choice entries in the Strategy Table.
 func (f *FibStrategyHashTable) GetAllForwardingStrategies() []FibStrategyEntry {
+	verifBeforeRLock(&f.fibStrategyRWMutex, "fib.rlock")
 	f.fibStrategyRWMutex.RLock()
 	defer f.fibStrategyRWMutex.RUnlock()
 	entries := make([]FibStrategyEntry, 0)
